@@ -10,10 +10,10 @@ use crate::gen::*;
 use crate::run::{Params, Run};
 use crate::util::{value_sexp, Rng};
 
-fn bx(e: ExpressionTree) -> Box<ExpressionTree> { Box::new(e) }
-fn lit(v: Value) -> ExpressionTree { ExpressionTree::Value(v) }
+pub(crate) fn bx(e: ExpressionTree) -> Box<ExpressionTree> { Box::new(e) }
+pub(crate) fn lit(v: Value) -> ExpressionTree { ExpressionTree::Value(v) }
 fn col(n: &str) -> ExpressionTree { ExpressionTree::ColumnAccess(n.to_owned()) }
-fn call(f: Function, args: Vec<ExpressionTree>) -> ExpressionTree { ExpressionTree::FunctionCall { function: f, arguments: args } }
+pub(crate) fn call(f: Function, args: Vec<ExpressionTree>) -> ExpressionTree { ExpressionTree::FunctionCall { function: f, arguments: args } }
 
 pub const SCHEMA: &[(&str, &str)] = &[
     ("i1", "int"), ("i2", "int"), ("f1", "real"), ("f2", "real"), ("b1", "bool"), ("s1", "text"), ("s2", "text"),
@@ -36,7 +36,12 @@ fn ty(name: &str) -> ValueType {
 
 pub const NUM_TEXTS: &[&str] = &["1", "-5", "+7", "1.5", "1e3", "inf", "nan", "9223372036854775807", "9223372036854775808", "x1", "", " 1", "true", "false", "TRUE",
     "2021-03-04 05:06:07", "2021-02-30 00:00:00", "1970-01-01 00:00:00", "01:02:03", "-1:00:30", "1:2", "a:b:c", "999999999999:0:0"];
-pub const PATTERNS: &[&str] = &["^a", "b$", "[0-9]+", "(", "é", ".*", "a|b", "\\d{2}"];
+// regex patterns: anchors, classes, groups, alternation, counted repetitions (also malformed ones), every single meta
+// character on its own, and patterns that are plain substrings of the texts in the pool
+pub const PATTERNS: &[&str] = &["^a", "b$", "[0-9]+", "(", "é", ".*", "a|b", "\\d{2}",
+    "l{2}", "10{3,}", "a{1,2}b", "l{2", "{", "}", "a{2}", "0{2,3}", "x{0}", "{2}",
+    "a", "ab", "lo w", "1", "00", "", "hello", ":0", "-0",
+    ".", "+", "*", "?", ")", "|", "[", "]", "^", "$", "\\", "a.c", "a+", "b?", "a*b", "[ab]", "(a)(b)", "\\."];
 
 pub fn gen_env(rng: &mut Rng) -> Vec<(String, Value)> {
     let mut env = Vec::new();
@@ -138,7 +143,13 @@ pub fn gen_expr(rng: &mut Rng, depth: usize, t: &ValueType, chaos: u64) -> Expre
             4 => call(Function::Abs, vec![gen_expr(rng, d, &int, chaos)]),
             5 => call(Function::StringLength, vec![gen_expr(rng, d, &text, chaos)]),
             6 => call(Function::ArrayLength, vec![gen_expr(rng, d, &ValueType::Array(Box::new(int.clone())), chaos)]),
-            7 => call(Function::Pow, vec![gen_expr(rng, d, &int, chaos), lit(Value::Int(rng.range(-1, 70)))]),
+            7 => {
+                // exponents around every boundary of `checked_pow(y as u32)`: 0, 1, 62..65, u32::MAX and beyond (an exponent
+                // that does not fit u32 must not be truncated), on the bases whose powers never overflow as well
+                let y = if rng.chance(1, 3) { *rng.pick(&[0i64, 1, 2, 31, 32, 62, 63, 64, 65, 4294967294, 4294967295, 4294967296, 4294967297, 4294967298, 8589934594, i64::MAX, -1, i64::MIN]) } else { rng.range(-1, 70) };
+                let x = if rng.chance(1, 2) { lit(Value::Int(*rng.pick(&[2i64, -1, 0, 1, 3, -2, 10, -3, 3037000499, i64::MAX, i64::MIN]))) } else { gen_expr(rng, d, &int, chaos) };
+                call(Function::Pow, vec![x, lit(Value::Int(y))])
+            }
             8 => ExpressionTree::ArrayElementAccess { array: bx(gen_expr(rng, d, &ValueType::Array(Box::new(int.clone())), chaos)), index: bx(if rng.chance(1, 2) { lit(Value::Int(rng.range(-1, 4))) } else { gen_expr(rng, d, &int, chaos) }) },
             9 => ExpressionTree::TypeConversion { operand: bx(gen_expr(rng, d, &text, chaos)), convert_to_type: int.clone() },
             10 => {
@@ -175,7 +186,10 @@ pub fn gen_expr(rng: &mut Rng, depth: usize, t: &ValueType, chaos: u64) -> Expre
                 if rng.chance(1, 4) { values.push(lit(Value::Null)); }
                 ExpressionTree::In { is_not: rng.chance(1, 2), operand: bx(gen_expr(rng, d, &ot, chaos)), values }
             }
-            9 => call(Function::RegexMatches, vec![gen_expr(rng, d, &text, chaos), lit(Value::String((*rng.pick(PATTERNS)).to_owned()))]),
+            9 => {
+                let v = if rng.chance(1, 2) { lit(Value::String((*rng.pick(crate::c03func::REGEX_TEXTS)).to_owned())) } else { gen_expr(rng, d, &text, chaos) };
+                call(Function::RegexMatches, vec![v, lit(Value::String((*rng.pick(PATTERNS)).to_owned()))])
+            }
             10 => ExpressionTree::TypeConversion { operand: bx(gen_expr(rng, d, &text, chaos)), convert_to_type: boolean.clone() },
             _ => gen_case(rng, d, &boolean, chaos),
         },
@@ -282,9 +296,10 @@ fn apply_cmp(op: &CompareOperator, o: Ordering) -> bool {
     }
 }
 
-enum Expect {
+pub(crate) enum Expect {
     Value(Value),
     Error,          // must be an error (not a value, not a panic)
+    ValueIfAny(Value), // an error is acceptable, a value only if it is this one
     Unspecified,    // the property sentence does not fix the outcome
 }
 
@@ -306,6 +321,7 @@ fn spec_root(e: &ExpressionTree, ev: &dyn Fn(&ExpressionTree) -> Ev) -> (Expect,
                 (sqlgrep::model::Value::String(x), sqlgrep::model::Value::String(y)) => x.chars().cmp(y.chars()),
                 (sqlgrep::model::Value::Timestamp(x), sqlgrep::model::Value::Timestamp(y)) => (x.timestamp(), x.timestamp_subsec_nanos()).cmp(&(y.timestamp(), y.timestamp_subsec_nanos())),   // by instant (timestamp_nanos_opt is None beyond 1677..2262)
                 (sqlgrep::model::Value::Bool(x), sqlgrep::model::Value::Bool(y)) => x.cmp(y),
+                (sqlgrep::model::Value::Interval(x), sqlgrep::model::Value::Interval(y)) => x.cmp(y),   // by duration
                 (sqlgrep::model::Value::Timestamp(_), sqlgrep::model::Value::String(_)) | (sqlgrep::model::Value::String(_), sqlgrep::model::Value::Timestamp(_)) => return (Unspecified, ""),
                 (a, b) if a.value_type() == b.value_type() => return (Unspecified, ""),
                 _ => return (Error, "D04:cmp-type-mismatch"),
@@ -419,6 +435,7 @@ fn spec_root(e: &ExpressionTree, ev: &dyn Fn(&ExpressionTree) -> Ev) -> (Expect,
             _ => (Error, "operand-error"),
         },
         ExpressionTree::ColumnAccess(_) => (Unspecified, ""),
+        ExpressionTree::FunctionCall { .. } | ExpressionTree::TypeConversion { .. } => crate::c03func::spec_function(e, ev),
         _ => (Unspecified, ""),
     }
 }
@@ -433,7 +450,14 @@ pub fn check_expr(run: &mut Run, env: &[(String, Value)], e: &ExpressionTree, ex
     let mut strings = BTreeSet::new();
     collect_expr_strings(e, &mut strings);
     for (_, v) in env { collect_value_strings(v, &mut strings); }
-    let patterns: BTreeSet<String> = PATTERNS.iter().map(|s| (*s).to_owned()).filter(|p| strings.contains(p)).collect();
+    let mut patterns: BTreeSet<String> = PATTERNS.iter().map(|s| (*s).to_owned()).filter(|p| strings.contains(p)).collect();
+    // every literal pattern argument of a regex_matches call, whether or not it is in the pool
+    let _ = e.visit::<(), _>(&mut |t| {
+        if let ExpressionTree::FunctionCall { function: Function::RegexMatches, arguments } = t {
+            if let Some(ExpressionTree::Value(Value::String(p))) = arguments.get(1) { patterns.insert(p.clone()); }
+        }
+        Ok(())
+    });
     let line = format!("eval {} {} {}", oracles_sexp(&strings, &patterns), env_sexp(env), expr_sexp(e));
     let kind = match &got { Ev::Ok(v) => vkind(v).to_owned(), Ev::Err(k) => format!("err-{}", k), Ev::Panic(_) => "panic".to_owned() };
     let root = root_name(e);
@@ -457,6 +481,10 @@ pub fn check_expr(run: &mut Run, env: &[(String, Value)], e: &ExpressionTree, ex
                 let class = if law == "in-as-disjunction" { "in-vs-eq".to_owned() } else { format!("{}:{}", law, root) };
                 run.fail(desc(), &class, format!("documented meaning gives {} but evaluation gave {}", want, other.wire()))
             }
+        },
+        Expect::ValueIfAny(want) => match &got {
+            Ev::Ok(v) if !bits_equal(v, &want) => run.fail(desc(), &format!("{}:{}", law, root), format!("a value is only acceptable if it is {} but evaluation gave {}", want, got.wire())),
+            _ => {}
         },
         Expect::Error => match &got {
             Ev::Err(_) => {}
@@ -715,6 +743,7 @@ pub fn run(p: &Params) -> Run {
         }
     }
     boundary_cases(&mut run, &env, p.tier_thorough);
+    crate::c03func::function_cases(&mut run, &mut rng, p.tier_thorough);
     let n_stmt = p.n(1200, 40_000);
     select_level(&mut run, &mut rng, n_stmt);
     tz_stream(&mut run, p);
